@@ -108,7 +108,8 @@ def r2_r3(ctx, F):
                 continue
             v = prov.project_field(st, sfield)
             # free helper functions (`util::clamp_combo(combo, max_combo, misses)`) are read through
-            v = prov.inline_all(F, v, depth=2, _seen=(f.path,), only=lambda f_: not f_.get('impl_adt') and not f_.get('trait') and '{closure' not in (f_.get('path') or ''))
+            v = prov.inline_all(F, v, depth=2, _seen=(f.path,), only=lambda f_: not f_.get('trait') and '{closure' not in (f_.get('path') or '') and
+                                not (f_.get('impl_adt') or '').endswith(('Performance', 'Difficulty', 'Attributes', 'ScoreState', 'MapOrAttrs', 'GameMods')))
             e = combin.expand(F, v)
             o = combin.unclamped_occurrences(e, src_pred(src))
             if rule == 'C12-R2':
@@ -201,18 +202,33 @@ def written_slots(v, F=None):
     out = {}
     if F is not None:
         v = prov.resolve_mut(F, prov.strip(v, through_mut=False))        # writes done by a private `&mut self` helper
-    v = prov.strip(v, through_mut=True)
-    while v[0] == 'mut':
-        v = v[1]
-    if v[0] != 'update':
-        return out
-    for p, x in v[2].items():
-        if len(p) == 1:
-            x = prov.strip(x)
-            if x[0] == 'agg' and x[3] == 'Some':
-                out[p[0]] = x[4]['0']
-            else:
-                out[p[0]] = x
+    layers = []
+    steps = 0
+    while steps < 40:
+        steps += 1
+        v = prov.strip(v, through_mut=True)
+        while v[0] == 'mut':
+            v = v[1]
+        if v[0] == 'update':
+            layers.append(v[2])
+            v = v[1]
+            continue
+        # `self.combo(a).fruits(b)..`: a chain of the builder's own by-value setters is the nested update they perform (spine only)
+        if F is not None and v[0] == 'call' and v[1].get('local') and (v[1].get('impl_adt') or '').endswith('Performance') and \
+                v[1].get('name') not in ('generate_state', 'calculate', 'new', 'from_map_or_attrs', 'try_mode', 'mode_or_ignore') and v[2]:
+            w = prov.inline_call(F, v)
+            if w is not v and w != v:
+                v = w
+                continue
+        break
+    for upd in reversed(layers):          # innermost first, outer writes win
+        for p, x in upd.items():
+            if len(p) == 1:
+                x = prov.strip(x)
+                if x[0] == 'agg' and x[3] == 'Some':
+                    out[p[0]] = x[4]['0']
+                else:
+                    out[p[0]] = x
     return out
 
 
